@@ -248,6 +248,54 @@ func churn2(n int) int {
 	return t
 }
 
+// deepKinds: one variable of every slot kind, read, written and captured three to six frames
+// below the frame that owns it (function literals and blocks with locals in between).
+func deepKinds(x int) func() int {
+	b := x%2 == 0
+	i8, i16, i32, i64 := int8(x), int16(x*3), int32(x*5), int64(x*7)
+	u, u8, u16, u32, u64, up := uint(x+1), uint8(x+2), uint16(x+3), uint32(x+4), uint64(x+5), uintptr(x+6)
+	f32, f64 := float32(x)+0.5, float64(x)+0.25
+	c64, c128 := complex(float32(x), 1), complex(float64(x), 2)
+	s := "s"
+	return func() int {
+		u64 += 2
+		i64 -= 3
+		{
+			k := int(u64)
+			return func() int {
+				i8++
+				u8 += 2
+				t := 0
+				for j := 0; j < 2; j++ {
+					w := j + 1
+					t += func() int {
+						u64 += uint64(w)
+						i16 += int16(w)
+						i32 -= int32(w)
+						u += uint(w)
+						u16 += 3
+						u32 += 5
+						up += 7
+						f32 += 1
+						f64 += 0.5
+						c64 += complex(1, 0)
+						c128 += complex(0, 1)
+						b = !b
+						s += "x"
+						n := int(i8) + int(i16) + int(i32) + int(i64) + int(u) + int(u8) + int(u16) + int(u32) + int(u64) + int(up)
+						n += int(f32*2) + int(f64*4) + int(real(c64)) + int(imag(c64)) + int(real(c128)) + int(imag(c128)) + len(s) + k
+						if b {
+							n += 1000000
+						}
+						return n
+					}()
+				}
+				return t
+			}()
+		}
+	}
+}
+
 func Main() {
 	gfuncs, gsetters, gptrs, gsptrs = nil, nil, nil, nil
 	gfptrs, gbptrs = nil, nil
@@ -259,7 +307,9 @@ func Main() {
 	}
 	steps := 6 + hook.Choose(14)
 	for s := 0; s < steps; s++ {
-		switch hook.Choose(21) {
+		switch hook.Choose(22) {
+		case 21:
+			gfuncs = append(gfuncs, deepKinds(hook.Choose(40)))
 		case 19:
 			gptrs = append(gptrs, addrInBlock(hook.Choose(20)))
 		case 20:
